@@ -106,4 +106,16 @@ CHECKS["C08"] = {
     "assumptions": COMMON_ASSUMPTIONS + ["default 1 s / 2 x 500 ms statistic window"],
 }
 
+CHECKS["C09"] = {
+    "package": "seq", "bin": "c09", "flavor": "seq",
+    "shards": {"quick": 4, "thorough": 16},
+    "level": "exploration",
+    "technique": "runtime monitoring: decision oracle written from the statement, applied to boundary probes whose observed metric values come from real inbound histories (virtual clock) and injected load/CPU readings; rejection reports parsed and checked",
+    "rule": "cases = (inbound history: 0..8 entries left in flight, 0..6 completions with chosen age, response time 0..2000 ms and batch 1..4, so that QPS / concurrency / avg RT / min RT / best completion rate vary) x injected load in {0,.125,.25,.5,.75,1} and CPU in {0,.25,.5,12.5,50,99} x 1-3 system rules of distinct metric types, each NoAdaptive or BBR, with its threshold placed below / exactly on / above the observed value; then one inbound (5/6) or outbound (1/6) probe entry. Every case is a boundary probe (non-trivial); distinct = distinct (per-rule (metric, strategy, position), inbound?, expected rejection?, in-flight > 1?, in-flight > estimated capacity?, completions in window?)",
+    "level_text": "The probe must be rejected iff some rule trips per the statement (QPS/concurrency/avg RT at >=; load/CPU at > and, under BBR, only with more than one request in flight and in-flight above best completion rate x min RT); the rejection must be a SystemFlow block naming a tripping rule and carrying the observed value; outbound probes are never rejected; exploration.",
+    "level_note": "Observed values are computed from the harness's own ledger of the history and cross-checked against the node API before every probe; equality cases use values exactly representable in f32/f64.",
+    "design_ref": "DESIGN.md §5 C09",
+    "assumptions": COMMON_ASSUMPTIONS + ["hooks verif_set_system_load / verif_set_cpu_usage stand in for the collectors (init is never called, so no collector thread runs)"],
+}
+
 NOT_APPLICABLE = {}
